@@ -27,6 +27,8 @@ def flt_src(kind, flt):
     def rec(x):
         if x["k"] in ("eq", "ne"):
             return "%s %s '%s'" % (acc % x["f"], "==" if x["k"] == "eq" else "!=", x["c"])
+        if x["k"] == "nz":
+            return "int(%s)" % (acc % x["f"])
         if x["k"] == "and":
             return "(%s) and (%s)" % (rec(x["l"]), rec(x["r"]))
         if x["k"] == "not":
@@ -37,7 +39,7 @@ def flt_src(kind, flt):
 
 FILTERS = [{"k": "none"}, {"k": "none"}, {"k": "eq", "f": "v", "c": "1"}, {"k": "ne", "f": "v", "c": "1"},
            {"k": "and", "l": {"k": "eq", "f": "v", "c": "1"}, "r": {"k": "eq", "f": "sl", "c": "0"}},
-           {"k": "not", "a": {"k": "eq", "f": "v", "c": "0"}}]
+           {"k": "not", "a": {"k": "eq", "f": "v", "c": "0"}}, {"k": "nz", "f": "v"}, {"k": "nz", "f": "sl"}]
 
 
 def gen_scenario(r, sid):
